@@ -73,57 +73,124 @@ def monitor_selfcheck(ctx, impls, n):
     ctx.count("mon-selfcheck-flagged", flagged)
 
 
-def known_plumbing(ctx, exe, oracle):
+def findings_for(ctx):
+    """recorded findings of this property: the lines of KNOWN_FINDINGS.txt plus the entries of
+    mapgen.PROPOSED_FINDINGS whose id has no line there yet (KNOWN_FINDINGS.txt is maintained by the
+    integrator; a proposed entry becomes redundant once its line, or the `fixed:` line of its repair,
+    is in the file and the entry is dropped from the table)"""
+    recorded = ctx.known_findings()
+    ids = set(k.get("id") for k in vlib.load_known_findings())
+    return recorded + [dict(k) for k in mapgen.PROPOSED_FINDINGS
+                       if k["property"] == ctx.prop and k.get("kind", "finding") == "finding" and k["id"] not in ids]
+
+
+def relaxed(oracle, ops, il, devs):
+    """the oracle on a dictionary with the given recorded deviations (mapgen.DEVIATIONS; they only
+    concern the implementation they were recorded for)"""
+    devs = set(d for d in devs if mapgen.DEVIATIONS[d][0] == mapgen.impl_of(ops))
+    if not devs:
+        return oracle(ops, il)
+    if "leak-at-exit" in devs and il and il[-1] == "SAN:leak":
+        il = il[:-1]
+    return oracle(ops, il, devs)
+
+
+def known_plumbing(ctx, exe, oracle, impls=None):
     """replay the witnesses of recorded findings (CONVENTIONS.md 4); returns the class names the
-    generators have to stay outside of"""
+    generators have to stay outside of.  A witness "still fails" when the oracle rejects its run even
+    if every OTHER recorded deviation is tolerated (so that, e.g., the leak every trie run ends with
+    does not keep an unrelated, repaired trie finding alive).  A finding whose witness passes (the
+    defect has been repaired in the tree under test) is reported as no longer reproducing and its
+    class is NOT excluded any more: the exploration is complete again as soon as the repair is in."""
     classes = []
-    for kf in ctx.known_findings():
-        if kf.get("class"):
-            classes.append(kf["class"])
+    active = []
+    for kf in findings_for(ctx):
         w = kf.get("witness")
         if not w:
+            if kf.get("class"):
+                classes.append(kf["class"])
             continue
         path = os.path.join(vlib.VERIF, w)
         if not os.path.exists(path):
             ctx.warnings.append("witness %s of %s missing" % (w, kf["id"]))
             continue
-        still = False
-        for cid, ops in vlib.read_case_file(path):
+        wcases = vlib.read_case_file(path)
+        if impls is not None and not any(mapgen.impl_of(ops) in impls for _, ops in wcases):
+            continue        # finding about an implementation this run does not cover
+        pred = mapgen.CLASSES.get(kf.get("class"))
+        others = set(mapgen.DEVIATIONS) - {getattr(pred, "deviation", None)}
+        failing = []
+        for cid, ops in wcases:
             r = vlib.run_batched(ctx, exe, [(cid, ops)], batch=1, env=LEAK_ENV)
-            if oracle(ops, r[str(cid)][0]):
-                still = True
-        ctx.report_known(kf, still)
+            il = r[str(cid)][0]
+            if relaxed(oracle, ops, il, others):
+                failing.append((cid, ops, il))
+        ctx.report_known(kf, bool(failing), "(witness %s passes on %s)" % (w, vlib.REPO))
+        if failing and kf.get("class"):
+            classes.append(kf["class"])
+            active.append((kf, pred, failing))
+    classes = list(dict.fromkeys(classes))
+    mapgen.ACTIVE_DEVS = set(getattr(mapgen.CLASSES.get(c), "deviation", None) for c in classes) - {None}
+    for kf, pred, failing in active:
+        for cid, ops, il in failing:
+            if not (pred and pred(ops, il)):
+                ctx.broken.append("witness %s (%s) of finding %s fails the property but lies outside its class %s" % (
+                    kf["witness"], cid, kf["id"], kf.get("class")))
     return classes
 
 
-def in_known_class(classes):
+def in_known_class(ctx, classes):
     def f(ops, il, desc):
         for c in classes:
             p = mapgen.CLASSES.get(c)
             if p and p(ops, il):
+                ctx.count("known-class-hit:" + c)
                 return c
         return None
     return f if classes else None
 
 
-def run(ctx, prop, streams, gen, oracle, nquick, nthorough, extra_selfcheck=None):
+def run(ctx, prop, streams, gen, oracle, nquick, nthorough, extra_selfcheck=None, oracle_streams=(), noracle=(700, 10000)):
+    """streams: implementations with a Lean model (exact differential comparison with `qb_map`);
+    oracle_streams: implementations checked through the real code with the python dictionary oracle
+    only (no Lean model of the implementation: `differential` is called without a driver)."""
+    oracle_streams = list(oracle_streams)
+    every = list(streams) + oracle_streams
     ctx.trusted = TRUSTED
-    ctx.assumptions = ASSUMPTIONS + ["implementations covered by this check: " + ", ".join(streams)]
+    ctx.assumptions = ASSUMPTIONS + [
+        "implementations compared op by op with their Lean model (and checked by the python oracle): " + (", ".join(streams) or "none"),
+        "implementations checked by the python dictionary oracle on the real code ONLY, no Lean model and no theorem about "
+        "their code (the Lean results cover the Dict specification the oracle is cross-checked with): " + (", ".join(oracle_streams) or "none"),
+        "skiplist/trie runs: cases inside the class of a finding that still reproduces are generated (steered away from "
+        "where possible) but a property failure inside the class is counted (stats known-class-hit:*), not reported"]
     vlib.lean_prepare(ctx)
     ctx.compile_lib(sources=LIB)
     exe = ctx.compile_harness("map/map_drv.c")
     cmp_ = mapgen.compare_exact
+
+    def diff(cases, stream, kc=None, batch=25):
+        """model-backed and oracle-only cases of one stream, each through the right comparison"""
+        with_model = [c for c in cases if mapgen.impl_of(c[1]) not in oracle_streams]
+        without = [c for c in cases if mapgen.impl_of(c[1]) in oracle_streams]
+        if with_model:
+            vlib.differential(ctx, exe, "map", with_model, oracle, stream, compare=cmp_, batch=batch,
+                              nontrivial=mapgen.tags, known_class=kc, env=LEAK_ENV)
+        if without:
+            vlib.differential(ctx, exe, None, without, oracle, stream, batch=batch,
+                              nontrivial=mapgen.tags, known_class=kc, env=LEAK_ENV)
+
     if ctx.replay:
         cases = vlib.read_case_file(ctx.replay)
-        vlib.differential(ctx, exe, "map", cases, oracle, "replay", compare=cmp_, nontrivial=mapgen.tags, env=LEAK_ENV)
+        oracle_streams = [i for i in ("sl", "trie") if i not in streams]
+        diff(cases, "replay")
         return
-    classes = known_plumbing(ctx, exe, oracle)
-    kc = in_known_class(classes)
-    spec_selfcheck(ctx, gen, oracle, streams, ctx.scale(100, 1000))
+    classes = known_plumbing(ctx, exe, oracle, every)
+    kc = in_known_class(ctx, classes)
+    spec_selfcheck(ctx, gen, oracle, every, ctx.scale(100, 1000))
     if extra_selfcheck:
         extra_selfcheck(ctx)
-    corpus = [c for c in vlib.corpus_cases(prop) if mapgen.impl_of(c[1]) in streams]
-    vlib.differential(ctx, exe, "map", corpus, oracle, "corpus", compare=cmp_, nontrivial=mapgen.tags, known_class=kc, env=LEAK_ENV)
+    corpus = [c for c in vlib.corpus_cases(prop) if mapgen.impl_of(c[1]) in every]
+    diff(corpus, "corpus", kc)
     if ctx.violations:
         return
     n = ctx.scale(nquick, nthorough)
@@ -131,7 +198,13 @@ def run(ctx, prop, streams, gen, oracle, nquick, nthorough, extra_selfcheck=None
         cases = [("%s%d" % (impl, i), gen(ctx.rng, impl)) for i in range(n)]
         cases = mapgen.outside_known_classes(ctx, cases, classes)
         for lo in range(0, len(cases), 3000):
-            vlib.differential(ctx, exe, "map", cases[lo:lo + 3000], oracle, impl, compare=cmp_, batch=40,
-                              nontrivial=mapgen.tags, known_class=kc, env=LEAK_ENV)
+            diff(cases[lo:lo + 3000], impl, kc, batch=40)
+            if ctx.violations:
+                return
+    n = ctx.scale(*noracle)
+    for impl in oracle_streams:
+        cases = [("%s%d" % (impl, i), mapgen.steer(gen(ctx.rng, impl), classes)) for i in range(n)]
+        for lo in range(0, len(cases), 3000):
+            diff(cases[lo:lo + 3000], impl, kc, batch=40)
             if ctx.violations:
                 return
